@@ -374,14 +374,26 @@ pub fn abort_line(toks: &[&str]) -> String {
     if toks.len() != 6 && toks.len() != 7 {
         return "bad-op".into();
     }
-    let abort_msg: String = if toks.len() == 7 {
-        match unhex(toks[6]).and_then(|b| String::from_utf8(b).ok()) {
-            Some(m) => m,
-            None => return "bad-op".into(),
+    // 7th token: `<hex text>` or `c<code>` or `c<code>:<hex text>`
+    let mut abort_code = ErrorCode::NotDefined;
+    let mut abort_msg: String = "verif: end".to_string();
+    if toks.len() == 7 {
+        let mut rest = toks[6];
+        if let Some(r) = rest.strip_prefix('c') {
+            let (c, tail) = r.split_once(':').unwrap_or((r, ""));
+            match c.parse::<u16>().ok().and_then(err_of_index) {
+                Some(code) => abort_code = code,
+                None => return "bad-op".into(),
+            }
+            rest = tail;
         }
-    } else {
-        "verif: end".to_string()
-    };
+        if !rest.is_empty() {
+            match unhex(rest).and_then(|b| String::from_utf8(b).ok()) {
+                Some(m) => abort_msg = m,
+                None => return "bad-op".into(),
+            }
+        }
+    }
     let (Some(root_b), Some(dgram), Ok(nblocks)) = (unhex(toks[1]), unhex(toks[4]), toks[5].parse::<usize>()) else {
         return "bad-op".into();
     };
@@ -417,7 +429,7 @@ pub fn abort_line(toks: &[&str]) -> String {
                     acks.push(format!("A{}", n));
                 }
             }
-            let e = Packet::Error { code: ErrorCode::NotDefined, msg: abort_msg.clone() };
+            let e = Packet::Error { code: abort_code.clone(), msg: abort_msg.clone() };
             let _ = sock.send_to(&e.serialize().unwrap(), from);
             // the worker removes (or keeps) the partial file asynchronously
             std::thread::sleep(ms(40, 600));
@@ -431,9 +443,11 @@ pub fn abort_line(toks: &[&str]) -> String {
 /// `timing <root> <flags> <fs> <rrq-hex>` -> seconds between the first two transmissions of DATA 1 and the
 /// number of times DATA 1 is sent before the server gives up
 pub fn timing_line(toks: &[&str]) -> String {
-    if toks.len() != 5 {
+    // optional 6th token `first`: stop after the first retransmission (for long intervals)
+    if toks.len() != 5 && !(toks.len() == 6 && toks[5] == "first") {
         return "bad-op".into();
     }
+    let first_only = toks.len() == 6;
     let (Some(root_b), Some(dgram)) = (unhex(toks[1]), unhex(toks[4])) else { return "bad-op".into() };
     let root = PathBuf::from(String::from_utf8(root_b).unwrap());
     let fl = parse_flags(toks[2]);
@@ -461,9 +475,13 @@ pub fn timing_line(toks: &[&str]) -> String {
             Some(_) => {}
             None => break,
         }
-        if stamps.len() > 40 {
+        if stamps.len() > 40 || (first_only && stamps.len() >= 2) {
             break;
         }
+    }
+    if first_only {
+        // end the transfer instead of sitting through its remaining time-outs
+        send_error(&sock, &from);
     }
     let interval = if stamps.len() >= 2 {
         let d = stamps[1].duration_since(stamps[0]).as_millis() as u64;
